@@ -115,3 +115,23 @@ func vH_FP_halfway(e2 int) {
 	vReach("C04.halfway-posed")
 	vAssertHalfwayFits(len(d.d), man, e2, "C04.buffer-holds-every-halfway")
 }
+
+// ---- C04 tier 1b / 5c-b: the exponent part, for every exponent digit string --------------------------
+// data is a literal with a concrete mantissa and free exponent digits. Both places that accumulate a
+// decimal exponent (the scanner and decimal.set) must report mantissa offset + exponent exactly, or -
+// where they stop accumulating - a value that lies beyond the consumer's range on the same side as the
+// true one (Eisel-Lemire's table for the scanner, floatBits' overflow / underflow exits for set).
+func vH_FP_expo(data []byte) {
+	mant, exp, neg, trunc, p, ok := readFloat(data)
+	vReach("C04.expo-scanned")
+	vAssert(ok && p == len(data), "C04.expo-scan-accepts")
+	if ok && p == len(data) {
+		vAssertScanExpo(data, mant, exp, neg, trunc, "C04.expo-scan-value")
+	}
+	var d decimal
+	sok := d.set(data)
+	vAssert(sok, "C04.expo-set-accepts")
+	if sok {
+		vAssertSetExpo(data, &d, "C04.expo-set-value")
+	}
+}
